@@ -146,7 +146,7 @@ Definition spec (d : dname) (ps : list Q) (v : list Q) : option rx :=
   | NormalD, [mu; sg], [x] =>
       Some (- (rsqr (RQ x - RQ mu) / (rz 2 * rsqr (RQ sg))) - RLn (RQ sg) - rhalf * ln2pi)%rx
   | UniformD, [a; b], [x] =>
-      if qle a x && qlt x b then Some (- RLn (RQ b - RQ a))%rx else None
+      if qle a x && qle x b then Some (- RLn (RQ b - RQ a))%rx else None
   | ExponentialRate, [lam], [x] =>
       if qle 0 x then Some (RLn (RQ lam) - RQ lam * RQ x)%rx else None
   | PoissonRate, [lam], [x] =>
